@@ -91,7 +91,13 @@ func consume(r io.Reader) ([]byte, error) {
 	return lg.data, nil
 }
 
+var warmPhase bool
+
 func beforeEcho(c context.Context, ctx *app.RequestContext) {
+	if warmPhase {
+		ctx.Request.Body() // buffers the whole streamed body in the request's (pooled) body buffer
+		return
+	}
 	if curProg.Form && ctx.Request.IsBodyStream() {
 		ctx.MultipartForm() //nolint:errcheck
 	}
@@ -122,6 +128,7 @@ type Case struct {
 	Cuts     []int     `json:"cuts"`
 	ReadBuf  int       `json:"read_buf"`
 	MaxBody  int       `json:"max_request_body_size,omitempty"` // 0 = 8 MiB
+	Warm     int       `json:"warm_up_body,omitempty"`          // size of the body an earlier request left buffered in the pooled context (0 = no earlier request)
 	// Transport "" = scripted connection; "netpoll" / "standard" = real transport behind a unix socket
 	Transport string `json:"transport,omitempty"`
 }
@@ -174,6 +181,17 @@ func Check(c *Case) string {
 		stream, _ = probeReq().Encode(stream)
 	} else if c.Probe {
 		stream, _ = probeReqClose().Encode(stream)
+	}
+	if c.Warm > 0 && c.Transport == "" {
+		// history: an earlier exchange (on a connection of its own) whose handler buffered a large body
+		// with ctx.Request.Body(); the pooled context it used, with its grown body buffer, is the one
+		// the case's request gets
+		warmPhase = true
+		wb := gen.Body(c.Warm, 7, 5, 0)
+		w := fmt.Sprintf("POST /warm HTTP/1.1\r\nHost: example.com\r\nX-Warm: 1\r\nContent-Length: %d\r\nConnection: close\r\n\r\n%s", len(wb), wb)
+		curLog, curProg = &readLog{}, Program{Sizes: []int{1 << 20}, Stop: -1}
+		server(c.ReadBuf, c.MaxBody).Run([][]byte{[]byte(w)}, sconn.EOF)
+		warmPhase = false
 	}
 	lg := &readLog{}
 	curLog, curProg = lg, c.Prog
@@ -384,6 +402,9 @@ func classify(c *Case) (bool, []string) {
 	if c.Prog.Form {
 		cls = append(cls, "handler-calls-MultipartForm")
 	}
+	if c.Warm > 0 {
+		cls = append(cls, "pooled-context-with-grown-body-buffer")
+	}
 	n := c.Req.BodyLen
 	ends := chunkEnds(c.Req)
 	inside := c.Prog.Stop > 0 && c.Prog.Stop < n
@@ -442,6 +463,9 @@ func TestC14Stream(t *testing.T) {
 			r.Body, r.BodyLen = nil, 0
 		}
 		c := &Case{Req: r, Truncate: -1, ReadBuf: rapid.SampledFrom([]int{4096, 4096, 1, 8192}).Draw(t, "readBuf"), MaxBody: rapid.SampledFrom([]int{0, 0, 16, 1000, 8192, 20000}).Draw(t, "maxRequestBodySize")}
+		if rapid.IntRange(0, 3).Draw(t, "warmUp") == 0 {
+			c.Warm = rapid.SampledFrom([]int{9000, 30000, 70000}).Draw(t, "warmUpBody")
+		}
 		multipartBody := false
 		if r.Framing == wire.FrChunked && rapid.IntRange(0, 5).Draw(t, "multipartBody") == 0 {
 			// a chunked multipart/form-data upload (reaches the handler as a stream), with an epilogue
